@@ -89,6 +89,17 @@ func NewRolloutScn(c *vs.Case, o RolloutOpts) *Scn {
 			"other":    "o1",
 			"template": map[string]any{"v": "v1", "metadata": map[string]any{"labels": map[string]any{"app": "p1"}}},
 		}}
+	if !o.Small && c.Prob(1, 5) {
+		// a selector that mixes matchLabels with an expression on another key
+		s.SelLabels["tier"] = "a"
+		spec := s.Parent["spec"].(map[string]any)
+		spec["selector"].(map[string]any)["matchExpressions"] = []any{map[string]any{"key": "tier", "operator": "In", "values": []any{"a", "b"}}}
+		spec["template"].(map[string]any)["metadata"].(map[string]any)["labels"].(map[string]any)["tier"] = "a"
+		for i := range s.Prog.Children {
+			s.Prog.Children[i].Labels["tier"] = "a"
+		}
+		c.Class("mixed-selector")
+	}
 	return s
 }
 
